@@ -18,6 +18,7 @@ from common import f2h, h2f, VERIF, REPO
 import gen_comp
 import extract_comp as X
 import c03
+import c07_comp
 
 import autofit as af
 from autofit.mapper.identifier import Identifier
@@ -295,6 +296,7 @@ def one_case(ctx, prog, sspec=None, tag="__none__", label="gen"):
     correspond(ctx, "model", model, case)
     correspond(ctx, "search", search, case)
     correspond(ctx, "fit", [search, model] + ([tag] if tag is not None else []), case)
+    c07_comp.correspond_comp(ctx, model, search, tag, case, pyval, tokens_equal)  # composition route (IdentComp.lean)
 
     base = fit_id(search, model, tag)
 
